@@ -2,7 +2,7 @@
 From Coq Require Import List NArith ZArith Bool.
 Import ListNotations.
 From JV Require Import Model.ScopeAst Model.ScopeIdTrack Model.ScopeFrameExec Model.ScopeMeta
-  Proofs.ScopeMetaProofs.
+  Proofs.ScopeMetaProofs Proofs.ScopeMeta2Proofs.
 
 (* every name the generated code passes to resolve() during a completed render is reported by
    find_undeclared_variables or is an environment global.  Proved for every program without
@@ -18,6 +18,18 @@ Proof.
   apply undeclared_cover_thm. exact (resolves_subset_thm pynorm priv d fuel p st o Hn E x Hx).
 Qed.
 Print Assumptions resolves_subset_undeclared_partial.
+
+(* second round: the same for ALL programs — macro definitions, macro calls (closures entering the
+   frame recorded at their definition, recursion, callers) and call blocks included — for render
+   arguments that contain no macro objects.  Invariant over the whole interpreter state: every
+   closure stored in a local, a suspended activation, context.vars or a namespace was created
+   by a macro / call-block statement whose frames belong to the static traversal. *)
+Theorem resolves_subset_undeclared : forall pynorm priv d globals fuel p st o,
+  (forall x v, dget N.eqb x d = Some v -> cfree v) ->
+  frender_st pynorm priv d fuel p = Ok (st, o) ->
+  forall x, In x (f_log st) -> In x (meta_undeclared globals p) \/ In x globals.
+Proof. exact resolves_subset_full_thm. Qed.
+Print Assumptions resolves_subset_undeclared.
 
 (* for EVERY program (calls included): the names find_undeclared_variables reports together with
    the globals are exactly an over-approximation of the resolve loads of all frames the code
